@@ -28,6 +28,10 @@ def run(chk, repo, tier):
     chk.clause('C05-e', 'a masked output window is the bounding box of the mask placed with the floor(n/2) convention: the energy '
                         'reported for a window is that of exactly its samples', 2)
     from . import extent_rules as X
+    from .prop_flow import own_storage_rule
+    own_storage_rule(chk, repo, 'C05-o')
+    from .prop_flow import skip_rule as _skip_rule
+    _skip_rule(chk, repo, 'C05-o')
     with chk.guard(['C05-e'], 'propagate._mask_shift'):
         X.mask_window_identities(chk, repo, 'C05-e')
     # the energy captured by a window is that of the samples the contract says are evaluated
